@@ -54,9 +54,11 @@ impl Rs {
 /// A consumption script over {next, next_back}: step `i` is `next_back` iff bit `i` is set.
 #[derive(Clone, Copy, PartialEq, Eq, Hash, Debug)]
 pub struct Script {
-    pub bits: u32,
+    pub bits: u64,
     pub len: u8,
 }
+/// script lengths up to which the enumeration is exhaustive (2^len scripts per length)
+pub const EXHAUSTIVE_SCRIPT_LEN: usize = 10;
 impl Script {
     pub fn empty() -> Script {
         Script { bits: 0, len: 0 }
@@ -64,28 +66,50 @@ impl Script {
     pub fn all_front(n: usize) -> Script {
         Script {
             bits: 0,
-            len: n as u8,
+            len: n.min(64) as u8,
         }
     }
     pub fn all_back(n: usize) -> Script {
+        let n = n.min(64);
         Script {
-            bits: if n >= 32 { u32::MAX } else { (1u32 << n) - 1 },
+            bits: if n >= 64 { u64::MAX } else { (1u64 << n) - 1 },
+            len: n as u8,
+        }
+    }
+    /// alternating, starting with next (first = 0) or next_back (first = 1)
+    pub fn alternating(n: usize, first: u64) -> Script {
+        let n = n.min(64);
+        let pat = if first == 0 { 0xAAAA_AAAA_AAAA_AAAAu64 } else { 0x5555_5555_5555_5555u64 };
+        Script {
+            bits: if n >= 64 { pat } else { pat & ((1u64 << n) - 1) },
             len: n as u8,
         }
     }
     pub fn back(&self, i: usize) -> bool {
-        (self.bits >> i) & 1 == 1
+        i < 64 && (self.bits >> i) & 1 == 1
     }
-    /// every script of length exactly `n`
-    pub fn all_of_len(n: usize) -> impl Iterator<Item = Script> {
-        (0..(1u32 << n)).map(move |bits| Script {
-            bits,
-            len: n as u8,
-        })
+    /// Every script of length exactly `n` — exhaustive up to EXHAUSTIVE_SCRIPT_LEN; beyond that (only
+    /// reached at the extension capacities > 8) a fixed family: all-front, all-back, the two
+    /// alternations, and every 8-step prefix continued all-front / all-back.
+    pub fn all_of_len(n: usize) -> Vec<Script> {
+        if n <= EXHAUSTIVE_SCRIPT_LEN {
+            return (0..(1u64 << n)).map(|bits| Script { bits, len: n as u8 }).collect();
+        }
+        let n = n.min(64);
+        let mut v = vec![Script::all_front(n), Script::all_back(n), Script::alternating(n, 0), Script::alternating(n, 1)];
+        for p in 0..256u64 {
+            v.push(Script { bits: p, len: n as u8 });
+            v.push(Script { bits: p | (Script::all_back(n).bits & !0xFF), len: n as u8 });
+        }
+        v
     }
-    /// every script of length 0..=n
-    pub fn all_up_to(n: usize) -> impl Iterator<Item = Script> {
-        (0..=n).flat_map(Script::all_of_len)
+    /// every script of length 0..=n (same exhaustiveness rule)
+    pub fn all_up_to(n: usize) -> Vec<Script> {
+        let mut v: Vec<Script> = (0..=n.min(EXHAUSTIVE_SCRIPT_LEN)).flat_map(Script::all_of_len).collect();
+        for k in EXHAUSTIVE_SCRIPT_LEN + 1..=n {
+            v.extend([Script::all_front(k), Script::all_back(k), Script::alternating(k, 0), Script::alternating(k, 1)]);
+        }
+        v
     }
 }
 
@@ -310,14 +334,14 @@ impl Act {
                     b: a(3)?,
                 },
                 Script {
-                    bits: a(4)? as u32,
+                    bits: a(4)? as u64,
                     len: a(5)? as u8,
                 },
             ))
         };
         let sc = || -> Option<Script> {
             Some(Script {
-                bits: a(0)? as u32,
+                bits: a(0)? as u64,
                 len: a(1)? as u8,
             })
         };
@@ -387,7 +411,7 @@ impl Act {
             "iter_debug" => IterDebug(
                 a(0)?,
                 Script {
-                    bits: a(1)? as u32,
+                    bits: a(1)? as u64,
                     len: a(2)? as u8,
                 },
             ),
